@@ -98,6 +98,24 @@ def scenarios(run):
             st = [S("sub", c=1, buf=4), S("pub", id=1, kind=k1, n=nvals(k1), only=0), S("sub", c=2, buf=4), S("pub", id=2, kind=k2, n=nvals(k2), only=0),
                   S("waitret", id=1), S("waitret", id=2), S("end")]
             out.append(dict(timeout=False, steps=st, pat="P7"))
+    # P11 many subscribers, most of them removed one by one (first, middle, last positions), then everybody who stayed gets every event
+    for ns, keep in ((20, 4), (40, 7)) if q else ((20, 4), (40, 7), (70, 9), (130, 20), (300, 30)):
+        for order in ("front", "back", "mixed"):
+            st = [S("sub", c=c, buf=2) for c in range(1, ns + 1)]
+            ids = list(range(1, ns + 1))
+            victims = {"front": ids[: ns - keep], "back": ids[keep:][::-1], "mixed": run.rng.sample(ids, ns - keep)}[order]
+            for j, v in enumerate(victims):
+                st.append(S("unsub", c=v))
+                if j % 7 == 3:
+                    st.append(S("unsub", c=v))        # a second time: ErrAlreadyUnsubscribed, nothing else changes
+            st += [S("pub", id=1, kind="PubSync", n=1, only=0), S("waitret", id=1), S("pub", id=2, kind="PubWait", n=1, only=0), S("waitret", id=2), S("end")]
+            out.append(dict(timeout=False, steps=st, pat="P11"))
+    # P12 WithOnly while the channel is the only subscription, subscribers that arrive later must not hear from the clone
+    for kind in KINDS:
+        st = [S("sub", c=1, buf=4), S("withonly", w=1, c=1), S("sub", c=2, buf=4), S("sub", c=3, buf=4),
+              S("pub", id=1, kind=kind, n=nvals(kind), only=1, via=1), S("quiesce"), S("waitret", id=1),
+              S("pub", id=2, kind="PubSync", n=1, only=0), S("waitret", id=2), S("end")]
+        out.append(dict(timeout=False, steps=st, pat="P12"))
     # B uncontrolled bursts: windows of a few instructions (simultaneous Unsubs of different channels; publishers racing for the last
     #   buffer slot of a stalled subscriber under a timeout), so many rounds, summarised per batch
     for n, dup in ((4, 1), (2, 1), (3, 2), (8, 1)):
